@@ -538,6 +538,44 @@ func (c *Ctx) initiatorOrder(prop string, p *Proc) {
 		isSenderCall := func(ci ssa.CallInstruction, m string) bool {
 			return ci.Common().IsInvoke() && namedIs(ci.Common().Value.Type(), pkgSender, "Service") && ci.Common().Method.Name() == m
 		}
+		// a package helper that sends prepare / execute messages for the driver: it sends no commit, returns an error, and
+		// returns nil only past the nil-error edge of each prepare / execute message it sent
+		peHelper := func(g *ssa.Function) (isHelper bool, valid bool) {
+			if g == nil || g == fn || g.Blocks == nil || prog.PkgPathOf(g) != pkg || errResultIndex(g) < 0 {
+				return false, false
+			}
+			for _, gf := range WithClosures(g) {
+				if len(Calls(gf, func(x ssa.CallInstruction) bool { return isSenderCall(x, "Commit") })) > 0 {
+					return false, false
+				}
+			}
+			pcs := Calls(g, func(x ssa.CallInstruction) bool { return isSenderCall(x, "Prepare") || isSenderCall(x, "Execute") })
+			if len(pcs) == 0 {
+				return false, false
+			}
+			valid = true
+			for _, pc := range pcs {
+				errs := map[ssa.Value]bool{}
+				for _, e := range errValuesOfCall(pc) {
+					errs[e] = true
+				}
+				if x, _ := an.Cut(an.CutQuery{From: an.After(pc), Target: func(i ssa.Instruction) bool { return isNilReturn(i, g) },
+					AcceptEdge: func(b *ssa.BasicBlock, i int, a *an.Atom) bool { return errNilAtom(a, errs) }}); x != nil {
+					valid = false
+				}
+			}
+			return true, valid
+		}
+		isPEStep := func(ci ssa.CallInstruction) bool {
+			if isSenderCall(ci, "Prepare") || isSenderCall(ci, "Execute") {
+				return true
+			}
+			if ci.Common().IsInvoke() {
+				return false
+			}
+			h, _ := peHelper(ci.Common().StaticCallee())
+			return h
+		}
 		// commit sites: invokes of sender.Commit in fn or its closures; the instruction in fn that starts them
 		var commitStarts []ssa.Instruction
 		for _, f := range WithClosures(fn) {
@@ -579,7 +617,7 @@ func (c *Ctx) initiatorOrder(prop string, p *Proc) {
 			continue
 		}
 		// a function that only sends commits on behalf of a package caller is a helper of that caller's driver
-		npe := len(Calls(fn, func(ci ssa.CallInstruction) bool { return isSenderCall(ci, "Prepare") || isSenderCall(ci, "Execute") }))
+		npe := len(Calls(fn, isPEStep))
 		if npe == 0 {
 			helper := false
 			for _, cs := range c.staticCallers()[fn] {
@@ -594,9 +632,21 @@ func (c *Ctx) initiatorOrder(prop string, p *Proc) {
 		nd++
 		bad := false
 		npre := 0
-		for _, m := range []string{"Prepare", "Execute"} {
-			for _, pc := range Calls(fn, func(ci ssa.CallInstruction) bool { return isSenderCall(ci, m) }) {
+		for _, m := range []string{"Prepare", "Execute", "helper"} {
+			for _, pc := range Calls(fn, func(ci ssa.CallInstruction) bool {
+				if m != "helper" {
+					return isSenderCall(ci, m)
+				}
+				return !ci.Common().IsInvoke() && isPEStep(ci)
+			}) {
 				npre++
+				if m == "helper" {
+					npre++ // stands for the prepare and execute messages it sends
+					if _, valid := peHelper(pc.Common().StaticCallee()); !valid {
+						bad = true
+						c.R.Fail(rule, Fn(pc.Common().StaticCallee()), c.Pos(pc), "the helper sending prepare / execute messages can report success although a message failed", "nil only past [err == nil] of every prepare and execute", nil)
+					}
+				}
 				errs := map[ssa.Value]bool{}
 				for _, e := range errValuesOfCall(pc) {
 					errs[e] = true
@@ -647,14 +697,32 @@ func (c *Ctx) ThresholdRules(prop string) {
 		}) {
 			for _, a := range ci.Common().Args {
 				if b, ok := a.Type().(*types.Basic); ok && b.Kind() == types.Uint32 {
-					// a is a parameter of f; map back to F's parameter through the static call
-					for _, call := range Calls(F, func(x ssa.CallInstruction) bool { return x.Common().StaticCallee() == f }) {
-						for i, prm := range f.Params {
-							if ssa.Value(prm) == a && i < len(call.Common().Args) {
-								t = call.Common().Args[i]
+					// a is a parameter of f; map it back to F's parameter through the chain of static calls that leads from F to f
+					var up func(g *ssa.Function, v ssa.Value, depth int)
+					up = func(g *ssa.Function, v ssa.Value, depth int) {
+						if g == F {
+							for _, prm := range u32 {
+								if ssa.Value(prm) == v {
+									t = v
+								}
+							}
+							return
+						}
+						if depth > 4 {
+							return
+						}
+						for i, prm := range g.Params {
+							if ssa.Value(prm) != v {
+								continue
+							}
+							for _, call := range c.staticCallers()[g] {
+								if i < len(call.Common().Args) && !prog.IsTestish(prog.PkgPathOf(call.Parent())) {
+									up(call.Parent(), call.Common().Args[i], depth+1)
+								}
 							}
 						}
 					}
+					up(f, a, 0)
 				}
 			}
 		}
